@@ -109,7 +109,7 @@ class MWorld(World):
             t = Opaque("abs_time", f"scheduler.now#{self.n}")
             self.log.append(("now", t))
             return t
-        if o.kind == "rel_time":
+        if o.kind == "rel_time" and name in ("seconds", "days", "microseconds"):
             # a component of the timedelta (.seconds, .days, .microseconds) or something computed from it is NOT the timedelta
             return Opaque("rel_part", f"{o.name}.{name}", of=o)
         return super().getattr(it, o, name)
@@ -142,6 +142,8 @@ class MWorld(World):
                 return o
             if method == "split" and args == [","] and o.attrs.get("is_inner"):
                 return Opaque("strlist", "elements")
+        if o.kind == "rel_time" and method == "total_seconds" and "total" in o.attrs:
+            return o.attrs["total"]
         if o.kind == "regex" and method == "findall":
             return Opaque("tokenlist", "tokens")
         if o.kind == "mapping" and method == "get":
@@ -293,7 +295,13 @@ class MarbleHarness:
         it.loop_contracts = {("parse", 0): {}, ("parse", 1): {}}
         it.on_loop = on_loop
         f = it.module_get("reactivex.observable.marbles", "parse")
-        it.call(f, [string], {"timespan": timespan, "time_shift": shift, "lookup": lookup, "error": error, "raise_stopped": raise_stopped})
+        a_ts, a_sh = timespan, shift
+        if ctx.choose(2, "timespan and time_shift are given as timedeltas") == 1:
+            # a timedelta counts with its WHOLE length in seconds (total_seconds(): days and fractions included) - the integer the clauses
+            # below speak about; a component (.seconds, .days) is another value
+            a_ts = Opaque("rel_time", "timespan-as-timedelta", total=timespan)
+            a_sh = Opaque("rel_time", "time_shift-as-timedelta", total=shift)
+        it.call(f, [string], {"timespan": a_ts, "time_shift": a_sh, "lookup": lookup, "error": error, "raise_stopped": raise_stopped})
 
     def elements_loop(self, it, ctx, uid, st, env, iterable, info):
         """`for elm in elements: check_stopped(elm)` - one arbitrary element from an arbitrary latch state, or no more elements"""
